@@ -602,7 +602,7 @@ def run(ctx):
     ctx.rule("G6", "per-candidate flags are fresh: inside the loop whose iteration evaluates one candidate (the innermost loop that "
                    "returns the configuration) every read of a flag (a name or config[...] slot that is assigned True/False/None in a "
                    "loop) is preceded, on every feasible path of one iteration of that loop or of a loop nested in it, by a store of "
-                   "the same iteration: nothing decided for an earlier, rejected candidate (or output) leaks into the returned one", min_sites=16)
+                   "the same iteration: nothing decided for an earlier, rejected candidate (or output) leaks into the returned one", min_sites=10)    # 16 on the pinned tree; a search may legitimately use for/else instead of a flag
     ctx.rule("G8", "search bounds derived from a frequency window round inwards: a bound computed as ceil/floor of a quotient that has "
                    "<x>_range[1] in the denominator or <x>_range[0] in the numerator is a lower bound and uses ceil; [0] in the "
                    "denominator or [1] in the numerator is an upper bound and uses floor", min_sites=6)
